@@ -232,12 +232,20 @@ func (m *Dev) abs(ev Event, got []Msg, signals int) *Violation {
 		st.last = s
 		return nil
 	}
+	sameInput := st.seen && st.lastRaw == ev.Value && st.lastMap == m.Map
+	st.seen, st.lastRaw, st.lastMap = true, ev.Value, m.Map
 	if s.Cmp(st.last) == 0 {
 		m.probe("axis_duplicate")
-		if len(got) != 0 {
+		if len(got) == 0 {
+			return nil
+		}
+		if sameInput || s.Sign() == 0 {
+			// the same position again in the same mapping (or rest again): nothing may be re-sent
 			return viol("duplicate_not_suppressed", fmt.Sprintf("%s repeats the previous shaped value but emitted %s", ev, fmtMsgs(got)), "C06")
 		}
-		return nil
+		// a different position (or mapping) that happens to shape to exactly the same rational: the float
+		// computation may tell them apart; a re-sent value is judged like any other
+		m.probe("axis_exact_coincidence")
 	}
 	if len(got) == 0 && abs(new(big.Rat).Sub(s, st.last)).Cmp(big.NewRat(1, 1000000000)) < 0 {
 		// mathematically different from the previous shaped value by less than 1e-9 (two mappings with
